@@ -164,6 +164,7 @@ func streamIsolation(o *Out, r *rand.Rand, n int, thorough bool) {
 		o.Fail(Failure{Oracle: "environments-isolated", Key: "env-leak", Input: "secret = 7 in one environment; read in another", Detail: fmt.Sprint(r2.trace, r2.err)})
 	}
 	isolationTypes(o)
+	isolationHistories(o)
 	// hidden shared state: a run that writes through every handle it can obtain (pointers to computed values, elements of
 	// literals, imported package tables, builtin results) must not change what an unrelated run computes afterwards
 	probeSrc := "probe([2 + 4, 1 - 2, 0 * 9, 4000 + 95, len(\"abc\"), [1, 2][0], \"a\" + \"b\", 1.5 * 2, true && true, nil ?? 7, {\"k\": 6}.k, -(-6), 6 % 7, 3 << 1, 13 >> 1, 6 | 0, 7 & 6])"
@@ -341,5 +342,81 @@ func isolationTypes(o *Out) {
 			}(e)
 		}
 		wg2.Wait()
+	}
+}
+
+
+// isolationHistories: what one run does inside function bodies, blocks and modules (types it defines, names it binds, depth
+// it recurses to) must not show in an unrelated run in another environment - one after the other and at the same time.
+func isolationHistories(o *Out) {
+	poisons := []string{
+		"func f() {\nmake(type Secret, {\"k\": 1})\nmake(type T, \"s\")\nreturn 1\n}\nf()\nf()",
+		"func f(a, b, c, d, e) {\nmake(type Secret, 1.5)\nmake(type T, 1.5)\n}\nf(1, 2, 3, 4, 5)",
+		"if true {\nmake(type Secret, 1)\nmake(type T, [1])\n}\nfor i = 0; i < 2; i++ {\nmake(type Secret, i)\n}",
+		"module mod {\nmake(type Secret, 1)\nmake(type T, true)\nfunc g() { make(type Secret, 2) }\n}\nmod.g()",
+		"func f() {\nvar hidden = 1\nhidden2 = 2\nfunc inner() { make(type Secret, 3) }\ninner()\n}\nf()",
+		"go func() {\nmake(type Secret, 4)\n}()\nfunc() {\ndefer func() { make(type T, 5) }()\n}()",
+	}
+	probes := []string{
+		"func g() {\nreturn make(Secret)\n}\ntry {\ng()\nprobe(\"Secret is defined\")\n} catch e {\nprobe(\"undefined\")\n}",
+		"make(type T, 7)\nfunc g() {\nreturn make(T)\n}\nprobe(g())\nfunc h(a, b, c, d, e) {\nreturn make([]T, 1)\n}\nprobe(h(1, 2, 3, 4, 5))",
+		"func g() {\nreturn [hidden ?? \"unseen\", hidden2 ?? \"unseen\"]\n}\nprobe(g())",
+		"func g() {\nif true {\nreturn make(map[string]Secret)\n}\n}\ntry {\ng()\nprobe(\"Secret is defined\")\n} catch e {\nprobe(\"undefined\")\n}",
+	}
+	var base []string
+	var trees []ast.Stmt
+	for _, p := range probes {
+		st, err := parser.ParseSrc(p)
+		if err != nil {
+			o.Fail(Failure{Oracle: "isolation-template", Key: "isolation-template-parse", Input: p, Detail: err.Error()})
+			return
+		}
+		trees = append(trees, st)
+		base = append(base, runVM(st, -1, 2*time.Second).line)
+	}
+	for _, ps := range poisons {
+		st, err := parser.ParseSrc(ps)
+		if err != nil {
+			o.Fail(Failure{Oracle: "isolation-template", Key: "isolation-template-parse", Input: ps, Detail: err.Error()})
+			continue
+		}
+		_ = runVM(st, -1, 2*time.Second)
+		for i, tr := range trees {
+			after := runVM(tr, -1, 2*time.Second).line
+			o.Sum.Evaluations++
+			o.Sum.Hist["history-probe"]++
+			if after != base[i] {
+				o.Fail(Failure{Oracle: "environments-isolated", Key: "env-leak:history", Input: ps + "\n--- then, in a fresh environment ---\n" + probes[i],
+					Detail: fmt.Sprintf("before the first script ran the probe gave %s; afterwards %s", base[i], after)})
+				break
+			}
+		}
+	}
+	// many runs that are deep in recursion at the same time: each has its own stack budget
+	deep, err := parser.ParseSrc("func r(n) {\nif n == 0 {\npause()\nreturn 0\n}\nreturn 1 + r(n - 1)\n}\nprobe(r(900))")
+	if err != nil {
+		o.Fail(Failure{Oracle: "isolation-template", Key: "isolation-template-parse", Input: "deep recursion", Detail: err.Error()})
+		return
+	}
+	withPause := func(e *env.Env) { _ = e.Define("pause", func() { time.Sleep(60 * time.Millisecond) }) }
+	solo := runVMWith(deep, -1, 5*time.Second, withPause).line
+	var wg sync.WaitGroup
+	got := make([]string, 24)
+	for g := range got {
+		wg.Add(1)
+		go func(g int) {
+			defer wg.Done()
+			got[g] = runVMWith(deep, -1, 10*time.Second, withPause).line
+		}(g)
+	}
+	wg.Wait()
+	o.Sum.Evaluations++
+	o.Sum.Hist["concurrent-deep-recursion"]++
+	for g := range got {
+		if got[g] != solo {
+			o.Fail(Failure{Oracle: "concurrent-runs-isolated", Key: "concurrent-run-differs:deep-recursion", Input: "func r(n) { if n == 0 { pause(); return 0 }; return 1 + r(n - 1) }; probe(r(900))  -- 24 runs at the same time, separate environments",
+				Detail: fmt.Sprintf("alone: %s; goroutine %d: %s", solo, g, got[g])})
+			break
+		}
 	}
 }
